@@ -326,6 +326,8 @@ R_<TG_, TA_>::reset() noexcept {
 	_apex.deepRequestChange(control, {TransitionType::RESTART, INVALID_SHORT});
 	_apex.deepEnter(control);
 
+	_core.registry.clearRequests();
+
 	HFSM2_IF_STRUCTURE_REPORT(udpateActivity());
 }
 
